@@ -120,6 +120,22 @@ func candidates(sc *Scenario) []*Scenario {
 		}
 	}
 	add(func(c *Scenario) bool { ok := c.Graphs > 1; c.Graphs = 1; return ok })
+	add(func(c *Scenario) bool { ok := c.Again; c.Again = false; return ok })
+	add(func(c *Scenario) bool {
+		ok := false
+		for i := range c.Tasks {
+			if c.Tasks[i].G1 != nil {
+				c.Tasks[i].G1, ok = nil, true
+			}
+		}
+		return ok
+	})
+	for t := range sc.Tasks {
+		if sc.Tasks[t].G1 != nil {
+			t := t
+			add(func(c *Scenario) bool { c.Tasks[t].G1 = nil; return true })
+		}
+	}
 	add(func(c *Scenario) bool { ok := c.Phase3 != nil; c.Phase3 = nil; return ok })
 	add(func(c *Scenario) bool { ok := c.Phase2 != nil; c.Phase2, c.Phase3 = c.Phase3, nil; return ok })
 	for pi, ph := range sc.ExtraPhases() {
